@@ -169,7 +169,7 @@ fn write(
                     } else {
                         write(c, Some(e.ns), st, depth + 1, out, declared);
                         if st.comment_in.as_deref() == Some(e.name.as_str()) && i + 1 < n.max(1) {
-                            out.push_str("<!-- c -->");
+                            out.push_str("<!-- c & d -->");
                         }
                     }
                 }
@@ -208,7 +208,7 @@ pub fn render(root: &El, st: &Style) -> String {
         out.push_str(d);
     }
     if st.root_comment {
-        out.push_str("<!-- before root -->");
+        out.push_str("<!-- before root: R&D lab, rack 4 &nbsp; < > -->");
     }
     let mut declared = vec![];
     write(root, None, st, 0, &mut out, &mut declared);
@@ -302,7 +302,7 @@ pub fn variants(root: &El) -> Vec<(String, Style)> {
     v.push((
         "comment@after-root".into(),
         Style {
-            after_root: Some("<!-- after root -->"),
+            after_root: Some("<!-- after root: R&D &#0; &; -->"),
             ..Default::default()
         },
     ));
